@@ -2,8 +2,11 @@
 """Confirm every seed under /tmp/seedout/<id>/<variant> (scratch worktree: 122 tests pass with the change, demo exits
 0 without / non-zero with it) and copy confirmed ones to /verif/seeded/<id>-<variant>/ with the confirmation recorded."""
 import json, os, shutil, subprocess, sys
-src = '/tmp/seedout'
+src = sys.argv[1] if len(sys.argv) > 1 else "/tmp/seedout"
+only = sys.argv[2].split(',') if len(sys.argv) > 2 else None
 for pid in sorted(os.listdir(src)):
+    if not os.path.isdir(os.path.join(src, pid)) or (only and pid not in only):
+        continue
     for var in sorted(os.listdir(os.path.join(src, pid))):
         d = os.path.join(src, pid, var)
         dst = f'/verif/seeded/{pid}-{var}'
